@@ -224,7 +224,42 @@ def conversions(ctx):
         if i != m:
             ctx.disagree(m_[0], {"doc": m_[1], "args": list(m_[2:])}, m, i)
         res[m_] = i
-    ctx.cov["hook_requests_compared"] = n_o2p + len(lines2)
+    # third round: the composed garden_pos_to_lsp_range (hook op lsp_range, patches/lsp-hook-range.diff;
+    # skipped when the tree under test does not have the op yet)
+    probe = ctx.garden_batch(["lsp_range 61 0 1 0 0"])
+    n_rng = 0
+    if probe and probe[0] == "OK 0 0 0 1":
+        lines3, meta3 = [], []
+        for doc in docs:
+            b = doc.encode("utf-8")
+            n = len(b)
+            pairs = [(s, e) for s in range(n + 2) for e in range(s, n + 2)]
+            if len(doc) > 3:
+                pairs = ctx.rng.sample(pairs, min(len(pairs), 6))
+            for s_, e_ in pairs:
+                l0, l1 = b[:min(s_, n)].count(b"\n"), b[:min(e_, n)].count(b"\n")
+                lines3.append("lsp_range %s %d %d %d %d" % (common.hexs(doc), s_, e_, l0, l1))
+                meta3.append((doc, s_, e_, l0, l1))
+        impl3 = [canon_impl(r) for r in ctx.garden_batch(lines3)]
+        model3 = model_batch(ctx, lines3)
+        for (doc, s_, e_, l0, l1), i, m in zip(meta3, impl3, model3):
+            bl = set(boundaries(doc))
+            inside = s_ in bl and e_ in bl
+            ctx.case(("range", doc, s_, e_), any(ord(c) > 0x7f for c in doc))
+            if inside:
+                ref = "OK %d %d %d %d" % (py_pos(doc, s_) + py_pos(doc, e_))
+                if i != ref:
+                    ctx.fail("C29/range-value", "garden_pos_to_lsp_range differs from the (line, UTF-16 column) "
+                             "of its two byte offsets", doc=doc, start_offset=s_, end_offset=e_, line=l0,
+                             end_line=l1, expected=ref, observed=i)
+            if i != m:
+                ctx.disagree("lsp_range", {"doc": doc, "args": [s_, e_, l0, l1]}, m, i)
+        n_rng = len(lines3)
+        ctx.cov["lsp_range_hook"] = "present: %d requests compared" % n_rng
+    else:
+        ctx.cov["lsp_range_hook"] = "absent in this tree (%r); composed function covered by the server runs only" % (
+            probe[0] if probe else None,)
+    ctx.cov["hook_requests_compared"] = n_o2p + len(lines2) + n_rng
     ctx.sample({"op": lines[5], "impl": impl[5], "model": model[5]})
     ctx.sample({"op": lines2[-1], "impl": impl2[-1], "model": model2[-1]})
 
@@ -352,6 +387,15 @@ TEMPLATES = [
     'fun k() {\n  let name = "{U}"\n  let greeting = "{V}" ^ name ^ "!"\n  println(greeting) println(name)\n}\n',
     'fun   bad_format( a:Int ,b : Int ) :Int{\n      let s="{U}"\n  a+b   // {V}\n}\n',
 ]
+# Programs whose diagnostic / quickfix / symbol spans themselves CONTAIN 2-, 3- and 4-byte characters and
+# are followed by more text on the same line ({W}, {X} = string contents).
+SPAN_TEMPLATES = [
+    'fun f(): Int {\n  "{W}" 12 // {X}\n}\n\nf()\n',
+    'fun g(): Int {\n  "{W}" "{X}" 7\n}\n\ng()\n',
+    'fun h(): String {\n  let s = "{X}" "{W}x" s\n}\nfun a() { "{W}" } fun b() { a() h() }\n\nb()\n',
+]
+SPAN_STRINGS = ["é", "日本", "\U0001F600", "a€\U0001d11e", "ü\U0001F600é"]
+
 UNI = ["", "é", "\U0001F600", "€é", "\U0001F600\U0001d11eé", "abc"]
 
 TOKEN = re.compile(r'"(?:[^"\\\n]|\\.)*"|[A-Za-z_][A-Za-z0-9_]*|[0-9]+|//[^\n]*|\S')
@@ -525,6 +569,10 @@ def run_program(ctx, job):
                                                  "end": {"line": src.count("\n") + 1, "character": 0}},
         "context": {"diagnostics": []}}})
     reqs[rid] = ("fixes",)
+    rid += 1
+    msgs.append({"jsonrpc": "2.0", "id": rid, "method": "textDocument/documentSymbol", "params": {
+        "textDocument": {"uri": uri}}})
+    reqs[rid] = ("symbols",)
     jl = os.path.join(d, "p%d.jsonl" % idx)
     with open(jl, "w", encoding="utf-8") as f:
         for k, m in enumerate(msgs):
@@ -535,7 +583,49 @@ def run_program(ctx, job):
     results = []          # (kind, detail, lsp_text_or_None, cli_text_or_None, problem)
     if common.crashed(rc) or rc == -9999:
         return {"name": name, "crash": rc, "results": []}
-    answers = {o["id"]: o for o in parse_stream(so) if isinstance(o, dict) and "id" in o and "method" not in o}
+    stream = parse_stream(so)
+    answers = {o["id"]: o for o in stream if isinstance(o, dict) and "id" in o and "method" not in o}
+    ranges = []           # (what, start_offset, end_offset, line, end_line, [sl, sc, el, ec] from the server)
+    range_problems = []   # (key, what, detail)
+    clean = "\r" not in src and src.endswith("\n") and "// args: " not in src
+    spanprog = name.startswith("span")
+    # published diagnostics vs the Garden positions `check --json` reports (1-based lines, byte columns)
+    if clean and (spanprog or not ctx.quick() or idx % 3 == 1):
+        diags = None
+        for o in stream:
+            if isinstance(o, dict) and o.get("method") == "textDocument/publishDiagnostics" \
+                    and o.get("params", {}).get("uri") == uri:
+                diags = o["params"].get("diagnostics") or []
+                break
+        st, so2 = cli(ctx, ["check", "--json", path])
+        if diags is not None and st in ("ok", "refused"):
+            gpos = []
+            for ln in (so2 or "").split("\n"):
+                if ln.startswith("{"):
+                    try:
+                        gpos.append(json.loads(ln))
+                    except ValueError:
+                        pass
+            line_starts = [0]
+            for l in src.encode("utf-8").split(b"\n")[:-1]:
+                line_starts.append(line_starts[-1] + len(l) + 1)
+            by_msg_l, by_msg_g = {}, {}
+            for dg in diags:
+                by_msg_l.setdefault(dg.get("message"), []).append(dg)
+            for g in gpos:
+                by_msg_g.setdefault(g.get("message"), []).append(g)
+            for msg, ls in by_msg_l.items():
+                gs = by_msg_g.get(msg, [])
+                if len(gs) != len(ls):
+                    continue          # the two front ends report different sets; not comparable
+                for dg, g in zip(ls, gs):
+                    l0, l1 = g["line_number"] - 1, g["end_line_number"] - 1
+                    if not (0 <= l0 < len(line_starts) and 0 <= l1 < len(line_starts)):
+                        continue
+                    r = dg["range"]
+                    ranges.append(("diagnostic " + repr(msg)[:60], line_starts[l0] + g["column"],
+                                   line_starts[l1] + g["end_column"], l0, l1,
+                                   [r["start"]["line"], r["start"]["character"], r["end"]["line"], r["end"]["character"]]))
 
     seen_edits = []
 
@@ -604,6 +694,35 @@ def run_program(ctx, job):
                 results.append((title, (s, e), lsp, out2, prob))
             for title in by_title:
                 results.append(("unknown-action", (s, e, title), None, None, None))
+        elif req[0] == "symbols":
+            todo = list(res or [])
+            while todo:
+                sym = todo.pop()
+                todo += sym.get("children") or []
+                rr, sr = sym.get("range"), sym.get("selectionRange")
+                if not rr or not sr or has_bare_cr(src):
+                    continue
+                a0, x0 = spec_index(src, rr["start"]["line"], rr["start"]["character"])
+                a1, x1 = spec_index(src, rr["end"]["line"], rr["end"]["character"])
+                b0, y0 = spec_index(src, sr["start"]["line"], sr["start"]["character"])
+                b1, y1 = spec_index(src, sr["end"]["line"], sr["end"]["character"])
+                text, sel = src[a0:a1], src[b0:b1]
+                bad = None
+                if x0 or x1 or y0 or y1:
+                    bad = "a symbol range splits a surrogate pair"
+                elif not (re.fullmatch(r"[A-Za-z_][A-Za-z0-9_]*", sel) and sel in (sym.get("name") or "")
+                          and not re.match(r"[A-Za-z0-9_]", src[b1:b1 + 1] or " ")
+                          and not re.match(r"[A-Za-z0-9_]", src[b0 - 1:b0] or " ")):
+                    bad = "selectionRange is not exactly the identifier token of the symbol's name"
+                elif not (a0 <= b0 and b1 <= a1):
+                    bad = "range does not contain selectionRange"
+                elif text != text.strip():
+                    bad = "range starts or ends in white space (not on the item's first/last token)"
+                ranges.append(None)       # counted as a case below
+                if bad:
+                    range_problems.append(("C29/symbol-range", "documentSymbol: " + bad,
+                                           dict(symbol=sym.get("name"), range=rr, selectionRange=sr,
+                                                range_text=text[:200], selection_text=sel[:80])))
         elif req[0] == "fixes":
             if "\r" in src or not src.endswith("\n") or "// args: " in src:
                 continue
@@ -625,7 +744,7 @@ def run_program(ctx, job):
                 prob = "cli " + st
             results.append(("quickfixes", (len(eds),), lsp, so2 if so2 else None, prob or prob2))
     return {"name": name, "crash": None, "results": results, "src": src, "file": path, "jsonl": jl,
-            "edits": seen_edits}
+            "edits": seen_edits, "ranges": ranges, "range_problems": range_problems}
 
 
 def server_edits(ctx):
@@ -651,6 +770,12 @@ def server_edits(ctx):
     variants = []
     for name, src, sels in programs:
         variants.append((name, src, sels))
+    for ti, t in enumerate(SPAN_TEMPLATES):
+        ws = list(SPAN_STRINGS)
+        rng.shuffle(ws)
+        for k, w in enumerate(["é", "日本", "\U0001F600"] + ws[:ctx.scale(0, 5)]):
+            x = ws[k % len(ws)]
+            variants.append(("span%d[%s|%s]" % (ti, w, x), t.replace("{W}", w).replace("{X}", x), []))
     for name, src, sels in rng.sample(programs, min(len(programs), ctx.scale(4, 40))):
         pre = "// é€\U0001F600\n"
         variants.append((name + "+ucomment", pre + src, [(s + len(pre), e + len(pre)) for s, e in sels]))
@@ -723,6 +848,47 @@ def server_edits(ctx):
                 else:
                     ctx.fail("C29/edit-text/" + kind, "server edits applied per the LSP spec differ from the "
                              "command-line refactoring", **replay)
+    # ranges of the real server, routed through the model (`lsp_range` = gardenPosToLspRange on the Garden
+    # byte offsets) and through the independent reference
+    rlines, rmeta = [], []
+    n_sym = 0
+    for job, out in zip(jobs, outs):
+        if out["crash"] is not None:
+            continue
+        for key, what, detail in out["range_problems"]:
+            ctx.fail(key, what, program=job[1], source=out["src"], file=out["file"], jsonl=out["jsonl"], **detail)
+        for rg in out["ranges"]:
+            if rg is None:
+                n_sym += 1
+                ctx.case((job[1], "symbol", n_sym), True)
+                continue
+            what, so_, eo_, l0, l1, got = rg
+            rlines.append("lsp_range %s %d %d %d %d" % (common.hexs(out["src"]), so_, eo_, l0, l1))
+            rmeta.append((job, out, rg))
+    rmodel = model_batch(ctx, rlines)
+    n_span_nonascii = 0
+    for (job, out, (what, so_, eo_, l0, l1, got)), m in zip(rmeta, rmodel):
+        src = out["src"]
+        span = src.encode("utf-8")[so_:eo_]
+        nonascii = any(b > 0x7f for b in span)
+        n_span_nonascii += 1 if nonascii else 0
+        ctx.case((job[1], what, so_, eo_), nonascii)
+        replay = dict(program=job[1], what=what, source=src, file=out["file"], jsonl=out["jsonl"],
+                      garden_start_offset=so_, garden_end_offset=eo_, garden_line=l0, garden_end_line=l1,
+                      server_range=got, model=m)
+        bl = set(boundaries(src))
+        if so_ in bl and eo_ in bl:
+            ref = list(py_pos(src, so_) + py_pos(src, eo_))
+            if got != ref:
+                ctx.fail("C29/server-range", "a range published by the server is not the (line, UTF-16 column) "
+                         "of the Garden position's byte offsets", expected=ref, **replay)
+                continue
+        if m != "OK %d %d %d %d" % tuple(got):
+            ctx.disagree("lsp_range (real server range vs model gardenPosToLspRange)",
+                         {"doc": src, "args": [so_, eo_, l0, l1]}, m, "OK %d %d %d %d" % tuple(got))
+    ctx.cov["server_ranges_vs_model"] = len(rlines)
+    ctx.cov["server_ranges_with_non_ascii_span"] = n_span_nonascii
+    ctx.cov["server_symbol_ranges_checked"] = n_sym
     ctx.cov["server_programs"] = len(jobs)
     ctx.cov["server_comparisons"] = n_cmp
     ctx.cov["server_comparisons_with_real_edit"] = n_edit
